@@ -482,6 +482,16 @@ pub fn run(tier: Tier, seed: u64) -> Report {
     if rep.failed() {
         return rep;
     }
+    let mut pm = p.clone();
+    pm.max_clients = 24;
+    pm.min_ops = 30;
+    pm.max_ops = tier.pick(70, 160);
+    pm.big_permille = 0;
+    let r = engine::explore("C13", "protocol", seed ^ 0x13, tier.pick(250, 3000), || pcase(&pm), check_protocol);
+    rep.absorb("protocol-lockstep-up-to-24-clients", r);
+    if rep.failed() {
+        return rep;
+    }
     let total = tier.pick(10_000, 100_000);
     let max = tier.pick(30, 80);
     let r = engine::explore("C13", "storage", seed, total, || scase(max), check_storage);
